@@ -458,9 +458,12 @@ func instrument(p pkgInfo, overlay map[string]string, stats map[string]int) {
 		fmt.Fprintf(&sb, "\t\t%q: &%s,\n", g, g)
 	}
 	sb.WriteString("\t}\n}\n")
+	if p.name == "bexpr" {
+		sb.WriteString("\n// VerifAST returns the syntax tree an Evaluator works on (C19: a tree must render the same before and after it was evaluated).\nfunc VerifAST(e *Evaluator) interface{} {\n\tif e == nil {\n\t\treturn nil\n\t}\n\treturn e.ast\n}\n")
+	}
 	if p.name == "grammar" {
 		sb.WriteString(verifClassesSrc)
-		sb.WriteString("\n// VerifParse is Parse plus the number of parser steps executed.\nfunc VerifParse(b []byte, opts ...Option) (any, error, uint64) {\n\tp := newParser(\"\", b, opts...)\n\tv, err := p.parse(g)\n\treturn v, err, p.ExprCnt\n}\n")
+		sb.WriteString("\n// VerifParse is Parse plus the number of parser steps executed.\nfunc VerifParse(b []byte, opts ...Option) (any, error, uint64) {\n\tp := newParser(\"\", b, opts...)\n\tv, err := p.parse(g)\n\treturn v, err, uint64(p.ExprCnt)\n}\n")
 	}
 	dst := filepath.Join(*out, p.name+"__zz_verif.go")
 	os.WriteFile(dst, []byte(sb.String()), 0o644)
